@@ -154,9 +154,9 @@ def interfere(case):
             lat = ctx_.lattice
             members = list(lat)[:12]
             for x in members:
-                list(x.upset()), list(x.downset()), x.minimal(), x.atoms
-                if len(x.intent) <= 8:
-                    list(x.attributes())
+                list(x.upset()), list(x.downset()), x.atoms
+                if len(x.intent) <= 8:   # minimal()/attributes() enumerate the powerset of the intent
+                    x.minimal(), list(x.attributes())
                 ctx_.neighbors(x.extent)
                 if x.extent:
                     lat[x.extent]
